@@ -11,8 +11,10 @@ RULE = ('family = source of length n in 2b+4..24 -> map(u0) [-> map(u1)] -> pref
         'reads). Oracle over the history: max over all moments of (pulled - '
         'delivered) <= buffer_size + 2 and (started - delivered) <= buffer_size. '
         'Non-trivial = the run had a real context switch; distinct = distinct '
-        '(pipeline, schedule signature).')
-PROBES = ['pull_bound_b_plus_2_reached', 'start_bound_b_reached']
+        '(pipeline, schedule signature). Every 200th family is systematic: buffer 1-2, '
+        'n = 2b+4, the non-preemptive baseline schedule and ALL schedules with exactly one '
+        'forced context switch.')
+PROBES = ['all_single_preemption_schedules_of_a_small_workload', 'pull_bound_b_plus_2_reached', 'start_bound_b_reached']
 BUDGET = {
     'quick': {'families': 2800, 'wall_cap': 420, 'shrink_s': 15},
     'thorough': {'families': 30000, 'wall_cap': 5400, 'shrink_s': 40},
@@ -28,7 +30,23 @@ POLICIES = [
 ]
 
 
+def gen_systematic(rng):
+    """small buffer, n = 2b+4, ALL one-preemption schedules"""
+    par = rng.choice([{'op': 'prefetch', 'w': 1, 'b': 1, 'backend': 't'},
+                      {'op': 'prefetch', 'w': 1, 'b': 2, 'backend': 't'},
+                      {'op': 'prefetch', 'w': 2, 'b': 2, 'backend': 't'},
+                      {'op': 'parmap', 'id': 'p', 'w': 1, 'b': 1, 'backend': 't'},
+                      {'op': 'parmap', 'id': 'p', 'w': 2, 'b': 2, 'backend': 't'}])
+    desc = {'source': {'kind': 'list', 'n': 2 * par['b'] + 4},
+            'stages': [{'op': 'map', 'id': 'u0'}, dict(par)]}
+    base = {'desc': desc, 'epochs': 1, 'cost_seed': None, 'think_seed': 0, 'think_max': 0,
+            'trace': ['parallel_utils'], 'systematic': 1}
+    return parprops.one_preemption_cases(base, parrun.run_par_case, max_cases=900)
+
+
 def gen(rng, tier, index):
+    if index % 200 == 199:
+        return gen_systematic(rng)
     backends = ('t',) if rng.random() < 0.6 else tuple(pargen.BACKENDS_POOL)
     par = pargen.gen_par_stage(rng, backends=backends, max_extra_b=3, single_p=0.4)
     b = par['b']
@@ -57,6 +75,9 @@ def gen(rng, tier, index):
 def run(case):
     res = parrun.run_par_case(case)
     out = parprops.base_outcome(case, res)
+    if case.get('systematic'):
+        out['fired']['systematic_one_preemption'] = 1
+        out['probes']['all_single_preemption_schedules_of_a_small_workload'] = 1
     if not parprops.check_failure(case, res, out):
         parprops.check_read_ahead(case, res, out)
     return out
